@@ -8,8 +8,16 @@ use std::{cell::RefCell, sync::Mutex};
 
 use rand::{rngs::StdRng, Error, RngCore, SeedableRng};
 
+/// Every thread starts from a seed of its own (as the threads of `rand::thread_rng()` do): two workers that
+/// have never been seeded must not produce the same stream.
+static NEXT_THREAD_SEED: std::sync::atomic::AtomicU64 = std::sync::atomic::AtomicU64::new(0);
+
 thread_local! {
-    static RNG: RefCell<StdRng> = RefCell::new(StdRng::seed_from_u64(0));
+    static RNG: RefCell<StdRng> = RefCell::new(StdRng::seed_from_u64(
+        NEXT_THREAD_SEED
+            .fetch_add(1, std::sync::atomic::Ordering::Relaxed)
+            .wrapping_mul(0x9E37_79B9_7F4A_7C15),
+    ));
 }
 
 static NORMALS: Mutex<Vec<Vec<f64>>> = Mutex::new(Vec::new());
